@@ -258,6 +258,9 @@ func (inv *Invoice) Invert() error {
 
 	// The following check tries to ensure that any future fields do not cause
 	// unexpected results.
+	if inv.Totals == nil {
+		return errors.New("cannot invert an invoice without lines, discounts or charges")
+	}
 	if !payable.Equals(inv.Totals.Payable) {
 		return fmt.Errorf("inverted invoice totals do not match %s != %s", payable.String(), inv.Totals.Payable.String())
 	}
